@@ -36,8 +36,8 @@ ALGS = ["PowerMethod", "GradientMethod", "GradientMethod-acc", "GradientMethod-b
         "ConjugateGradient-illcond", "PDHG",
         "PDHG-acc", "PDHG-zero-l1-smallsigma", "PDHG-zero-box", "AltMin",
         "AugmentedLagrangianMethod", "ADMM", "SDMM", "SDMM-norm", "NewtonsMethod",
-        "NewtonsMethod-bt", "GerchbergSaxton", "GradientMethod-sol0"]
-APPS = ["MaxEig", "LLS-CG", "LLS-GM", "LLS-PDHG", "LLS-PDHG-smallsigma", "LLS-ADMM",
+        "NewtonsMethod-bt", "GerchbergSaxton", "GradientMethod-sol0", "GradientMethod-nested"]
+APPS = ["MaxEig", "LLS-CG", "LLS-CG-strided", "LLS-GM", "LLS-PDHG", "LLS-PDHG-smallsigma", "LLS-ADMM",
         "L2ConstrainedMinimization", "SenseRecon", "EspiritCalib", "TotalVariationRecon",
         "JsenseRecon", "L1WaveletRecon"]
 MAXITERS = [0, 1, 2, 7, 50]
@@ -99,6 +99,22 @@ def make_alg(kind, rng, mi):
     if kind.startswith("GradientMethod"):
         M, y = lsq(rng, n, False if "box" in kind else cplx)
         L = float(np.linalg.eigvalsh(M.conj().T @ M)[-1])
+        if kind == "GradientMethod-nested":
+            # the outer solver's prox is itself computed by an inner GradientMethod of the same
+            # shape and dtype (two solver objects alive at once)
+            mu = 0.3
+
+            def proxg(alpha, v):
+                w = v.copy()
+                inner = A_.GradientMethod(lambda q: (q - v) + alpha * mu * q, w,
+                                          1.0 / (1 + alpha * mu), max_iter=25)
+                while not inner.done():
+                    inner.update()
+                return w
+            x = crandn(rng, [n], M.dtype)
+            a = A_.GradientMethod(lambda v: M.conj().T @ (M @ v - y), x, 1 / L, proxg=proxg,
+                                  accelerate=bool(rng.random() < 0.5), max_iter=mi, tol=0)
+            return a, (lambda: [a.x]), nobreak
         if kind == "GradientMethod-box-acc":
             # optimum far outside the box: every coordinate gets clipped
             y = y * 50
@@ -350,6 +366,11 @@ def run_app(case):
         app = sp.app.MaxEig(A.N, dtype=M.dtype, **kw)
     elif name == "LLS-CG":
         app = sp.app.LinearLeastSquares(A, yy, lamda=0.1, **kw)
+    elif name == "LLS-CG-strided":
+        big = np.zeros([2 * n, 1], M.dtype)
+        x0 = big[::2]                                  # caller's start vector is a strided view
+        x0[:] = crandn(rng, [n, 1], M.dtype)
+        app = sp.app.LinearLeastSquares(A, yy, x=x0, lamda=0.1, **kw)
     elif name == "LLS-GM":
         app = sp.app.LinearLeastSquares(A, yy, proxg=sp.prox.L1Reg([n, 1], 0.05), **kw)
     elif name == "LLS-PDHG":
